@@ -125,6 +125,24 @@ template <typename M> static std::string showHeaders(const M& m)
   return o;
 }
 
+// req.params: sorted by key bytes (unsigned), `k=v` in hex joined by `&`, `-` when there are none
+template <typename M> static std::string showParams(const M& m)
+{
+  std::vector<std::pair<std::string, std::string>> v(m.begin(), m.end());
+  if (v.empty()) return "-";
+  std::sort(v.begin(), v.end(), [](const auto& a, const auto& b) {
+    return std::lexicographical_compare(a.first.begin(), a.first.end(), b.first.begin(), b.first.end(),
+                                        [](char p, char q) { return static_cast<unsigned char>(p) < static_cast<unsigned char>(q); });
+  });
+  std::string o;
+  for (std::size_t i = 0; i < v.size(); ++i)
+  {
+    if (i) o += "&";
+    o += vh::toHex(v[i].first) + "=" + vh::toHex(v[i].second);
+  }
+  return o;
+}
+
 static std::string kindOf(const std::string& what)
 {
   static const std::pair<const char*, const char*> table[] = {
@@ -405,6 +423,23 @@ static std::string xr(const std::string& method, std::size_t maxResp, std::size_
 }
 
 // ---------------------------------------------------------------------------------------------- server side
+// The scripted engine of the server side.  TcpEngine::sendAsync (detail/tcp_engine.hpp) runs the completion callback
+// SYNCHRONOUSLY on the calling thread after the enqueue (`bool ok = send(...); if (cb) cb(sid, ok ? ok(len) : err)`) - the
+// server relies on that (SR-7 comments), and sendErrorResponse's completion is what closes and erases the session after a 503.
+// The shared FakeEngine drops the callback; this one does what the real engine does.
+struct SrvEngine : vh::FakeEngine
+{
+  void sendAsync(SessionId sid, const void* d, std::size_t n, SendCompleteCallback cb) override
+  {
+    bool ok = send(sid, d, n);
+    if (cb)
+    {
+      if (ok) cb(sid, SendResult::ok(n));
+      else cb(sid, SendResult::err(TransportErrorInfo{TransportError::Socket, "send enqueue failed"}));
+    }
+  }
+};
+
 struct Srv
 {
   std::unique_ptr<HttpServer> s;
@@ -428,7 +463,7 @@ struct Srv
   void init()
   {
     s = std::make_unique<HttpServer>("127.0.0.1", 0);
-    auto fe = std::make_unique<vh::FakeEngine>();
+    auto fe = std::make_unique<SrvEngine>();
     eng = fe.get();
     TransportConfig cfg;
     cfg.protocol = Protocol::TCP;
@@ -440,8 +475,9 @@ struct Srv
     };
     eng->onCloseCall = [this](SessionId) { ev("X"); };
     s->setDefaultHandler([this](const HttpServer::Request& r, HttpServer::Response&) {
+      // method, query-stripped path, header map, body, and the query parameters processHttpRequest put into req.params
       ev("R/" + std::to_string(static_cast<int>(r.method)) + "/" + vh::toHex(r.path) + "/" + showHeaders(r.headers) + "/" +
-         digest(r.body));
+         digest(r.body) + "/" + showParams(r.params));
     });
     const std::size_t maxThreads = s->_threadPool._maxSize;
     for (std::size_t i = 0; i + 1 < maxThreads; ++i)
@@ -458,6 +494,67 @@ struct Srv
     if (started.load() + 1 < static_cast<int>(maxThreads)) { std::fprintf(stderr, "c15 harness: could not park the pool workers\n"); _exit(96); }
   }
 
+  // ---- the oracle ops: when do the workers run, how many tasks does the pool still accept, when does the close land
+  // `hold k`: the one free worker is parked behind a gate and the task queue is filled up so that exactly k more tryEnqueue
+  // calls succeed (k >= queue capacity: nothing is filled).  While held, `data` ops do not wait for the workers: dispatched
+  // requests stay queued, the I/O thread's extraction goes on; a refused request is answered 503 by the I/O thread itself.
+  // `release`: the gate opens, every queued request runs (in dispatch order), the worker events are the answer.
+  bool held = false;
+  std::mutex gmx;
+  std::condition_variable gcv;
+  bool gateOpen = false;
+  std::atomic<int> gateEntered{0};
+
+  std::string hold(std::size_t k)
+  {
+    if (held) return "bad-op";
+    drainPool();
+    {
+      std::lock_guard<std::mutex> l(gmx);
+      gateOpen = false;
+    }
+    gateEntered = 0;
+    while (!s->_threadPool.tryEnqueue([this]() {
+      ++gateEntered;
+      std::unique_lock<std::mutex> l(gmx);
+      gcv.wait(l, [this] { return gateOpen; });
+    }))
+      std::this_thread::sleep_for(std::chrono::milliseconds(1));
+    for (int i = 0; i < 30000 && gateEntered.load() == 0; ++i) std::this_thread::sleep_for(std::chrono::milliseconds(1));
+    if (gateEntered.load() == 0) { std::fprintf(stderr, "c15 harness: gate task was not picked up\n"); _exit(96); }
+    const std::size_t cap = s->_threadPool._maxQueueSize;
+    std::size_t filled = 0;
+    if (k < cap)
+      for (std::size_t i = 0; i < cap - k; ++i)
+        if (s->_threadPool.tryEnqueue([]() {})) ++filled;
+    held = true;
+    (void)filled;
+    return "ok";
+  }
+
+  std::string releaseGate()
+  {
+    if (!held) return "bad-op";
+    {
+      std::lock_guard<std::mutex> l(gmx);
+      gateOpen = true;
+    }
+    gcv.notify_all();
+    held = false;
+    drainPool();
+    return collect();
+  }
+
+  // the engine's close callback (HttpServer::start() wires `_sessionInfo.erase(sid); _upgradedSessions.erase(sid)` under
+  // _sessionMutex to Transport::onClose; the scripted engine has no callback of its own): the queued close LANDS here
+  std::string closed()
+  {
+    std::lock_guard<std::mutex> g(s->_sessionMutex);
+    s->_sessionInfo.erase(sid);
+    s->_upgradedSessions.erase(sid);
+    return "ok";
+  }
+
   void drainPool()
   {
     std::promise<void> p;
@@ -470,6 +567,7 @@ struct Srv
   void reset()
   {
     if (!s) init();
+    if (held) (void)releaseGate();
     drainPool();
     {
       std::lock_guard<std::mutex> g(s->_sessionMutex);
@@ -488,9 +586,13 @@ struct Srv
       Watchdog w;
       s->handleIncomingData(sid, d.data(), d.size());
     }
-    drainPool();
+    if (!held) drainPool();
+    return collect();
+  }
+
+  std::string collect()
+  {
     std::string o;
-    bool closed = false;
     std::size_t buf = 0;
     bool alive = false;
     {
@@ -498,7 +600,7 @@ struct Srv
       auto join = [&](const std::vector<std::string>& v) {
         std::string r;
         if (v.empty()) r = "-";
-        for (std::size_t i = 0; i < v.size(); ++i) { if (i) r += ","; r += v[i]; if (v[i] == "X") closed = true; }
+        for (std::size_t i = 0; i < v.size(); ++i) { if (i) r += ","; r += v[i]; }
         return r;
       };
       o = join(workerEvs) + " | io=" + join(ioEvs);
@@ -507,8 +609,8 @@ struct Srv
     }
     {
       std::lock_guard<std::mutex> g(s->_sessionMutex);
-      // the engine's close callback erases the session (HttpServer::start() wiring); the scripted engine has none
-      if (closed) s->_sessionInfo.erase(sid);
+      // NOTHING is erased here: Transport::close only queues the close, the engine's close callback runs when the script says
+      // so (`sv closed`).  A session that is gone at this point was erased by the server's own code.
       auto it = s->_sessionInfo.find(sid);
       alive = it != s->_sessionInfo.end();
       buf = alive ? it->second.buffer.size() : 0;
@@ -608,6 +710,9 @@ int main()
       }
       if (t.size() == 2 && t[0] == "sv" && t[1] == "reset") { srv.reset(); return "ok"; }
       if (t.size() == 3 && t[0] == "sv" && t[1] == "data" && vh::ofHex(t[2], d)) return srv.data(d);
+      if (t.size() == 2 && t[0] == "sv" && t[1] == "closed") { if (!srv.s) srv.init(); return srv.closed(); }
+      if (t.size() == 3 && t[0] == "sv" && t[1] == "hold" && vh::parseNat(t[2], n)) { if (!srv.s) srv.init(); return srv.hold(static_cast<std::size_t>(n)); }
+      if (t.size() == 2 && t[0] == "sv" && t[1] == "release") { if (!srv.s) srv.init(); return srv.releaseGate(); }
       if (t.size() == 3 && t[0] == "fce" && vh::parseNat(t[1], n) && vh::ofHex(t[2], d))
       {
         if (!srv.s) srv.init();
